@@ -86,7 +86,9 @@ func Generate(id string, seed int64, run int, tier string) *vm.Plan {
 		// the verifier queries its authorizer before it authorizes (a fresh authorizer only: a query
 		// on the way evaluates the world, which must not change what Authorize concludes)
 		for i := range p.Ops {
-			if p.Ops[i].K == "verify" && !p.Ops[i].Has("noauth") && r.Intn(2) == 0 {
+			// (not under an iteration limit: the query's own evaluation does part of the rounds, so the
+			// Authorize that follows needs fewer of them than one that starts from scratch)
+			if p.Ops[i].K == "verify" && !p.Ops[i].Has("noauth") && (p.Ops[i].Lim == nil || p.Ops[i].Lim.MaxIter == 0) && r.Intn(2) == 0 {
 				p.Ops[i].Flags = append(p.Ops[i].Flags, "query-before")
 			}
 		}
